@@ -35,8 +35,9 @@ pub struct ExecDriver {
     pub rule_text: &'static str,
 }
 
-const PROBE_BASE: i32 = 0x4000_0000;
-const TICK_BASE: i32 = 0x5000_0000;
+// not round numbers: generated programs log boundary values (powers of two, MIN/MAX)
+const PROBE_BASE: i32 = 0x4A5B_0000;
+const TICK_BASE: i32 = 0x5C6D_0000;
 
 fn probe_payload(id: i32) -> Vec<Operator<'static>> {
     vec![Operator::I32Const { value: id }, Operator::Call { function_index: 0 }]
@@ -213,7 +214,9 @@ impl Driver for ExecDriver {
         // flag-guarded probe bodies that will be emitted behind one end: (function, opener) -> count
         let mut flagged_at: BTreeMap<(u32, usize), usize> = BTreeMap::new();
         for _ in 0..n_inj {
-            let f = *c.t.pick(&lf);
+            // functions with structured control flow first: most probe kinds need a construct
+            let with_ctl: Vec<u32> = lf.iter().copied().filter(|f| din.funcs[*f as usize].ops.iter().any(|o| is_blockish(o) || is_branch(o))).collect();
+            let f = if !with_ctl.is_empty() && c.t.chance(3, 4) { *c.t.pick(&with_ctl) } else { *c.t.pick(&lf) };
             let ops = &din.funcs[f as usize].ops;
             let st = &structures[&f];
             let last = ops.len() - 1;
